@@ -425,6 +425,9 @@ func init() {
 										for v := 0; v <= 3; v++ {
 											jobs = append(jobs, J(sessPkg, "H_C07_quiet", role, kind, dmg, fill, 1, v, 0, 0, 0, 0))
 										}
+										for hv := 0; hv <= 1; hv++ {
+											jobs = append(jobs, J(sessPkg, "H_C07_quiet", role, kind, dmg, fill, 1, 4, 0, hv, 0, 0))
+										}
 									}
 									continue
 								}
